@@ -87,7 +87,8 @@ python3 - "$ID" "$STATS" <<'PY'
 import json,sys
 i,st=sys.argv[1],sys.argv[2]
 rows=[json.loads(l) for l in open(st)]
-p='/verif/evidence/%s.json'%i
+import os
+p=os.environ.get('VERIF_EVIDENCE_DIR','/verif/evidence')+'/%s.json'%i
 try: e=json.load(open(p))
 except Exception: sys.exit(0)
 e['coverage']['fuzz']={'engine':'libFuzzer (cargo-fuzz 0.13, debug assertions + overflow checks on, sanitizer none)','processes':rows,
